@@ -349,6 +349,11 @@ func compoundShapes() []func() rtcp.CompoundPacket {
 		},
 		func() rtcp.CompoundPacket {
 			t := &tagger{}
+			// first member without report blocks: its destination list is empty
+			return rtcp.CompoundPacket{&rtcp.ReceiverReport{SSRC: t.u32()}, cnameSDES(t), &rtcp.PictureLossIndication{SenderSSRC: t.u32(), MediaSSRC: t.u32()}}
+		},
+		func() rtcp.CompoundPacket {
+			t := &tagger{}
 			return rtcp.CompoundPacket{sr(t), cnameSDES(t), &rtcp.ExtendedReport{SenderSSRC: t.u32(), Reports: []rtcp.ReportBlock{&rtcp.ReceiverReferenceTimeReportBlock{NTPTimestamp: t.u64()}}},
 				&rtcp.ApplicationDefined{SubType: 3, SSRC: t.u32(), Name: "abcd", Data: []byte{1, 2, 3, 4}}, &rtcp.FullIntraRequest{SenderSSRC: t.u32(), MediaSSRC: t.u32(), FIR: []rtcp.FIREntry{{SSRC: t.u32(), SequenceNumber: 9}}}}
 		},
